@@ -153,3 +153,12 @@ def splitclean_simulate(ns, *, num, depth, seed):
         res.distinct = sum(len(b) for b in behs)
     res.ok = "Finished in" in res.out and "Error" not in res.out
     return res, behs
+
+
+def followpath(uname, invariants=("ThmFollowOr", "ThmFollowAnd", "ThmFollowSub"), timeout=1500, tag=None):
+    """code-shaped model of the path-following operators against Plane on all region pairs"""
+    tlc.prepare()
+    root = "MCF_" + uname
+    tlc.wrapper(root, ["FollowPath", "MC_" + uname])
+    cfg = tlc.PLANE_CONSTS + "SPECIFICATION FSpec\n" + "".join("INVARIANT %s\n" % i for i in invariants) + "CHECK_DEADLOCK FALSE\n"
+    return tlc.run(root, None, cfg_text=cfg, timeout=timeout, tag=tag or root)
